@@ -475,7 +475,7 @@ var (
 
 func TestC12_SM2Sign(t *testing.T) { runFamily(t, "sm2sign", 1000, 15000, "sm2-sign") }
 func TestC12_SM2Encrypt(t *testing.T) {
-	runFamily(t, "sm2encrypt", 700, 10000, "sm2-encrypt", "sm2-enveloped-key")
+	runFamily(t, "sm2encrypt", 500, 10000, "sm2-encrypt", "sm2-enveloped-key")
 }
 func TestC12_SM2KeyGen(t *testing.T) {
 	runFamily(t, "sm2keygen", 1200, 18000, "sm2-generatekey", "ecdh-generatekey")
@@ -484,5 +484,5 @@ func TestC12_SM2KeyExchange(t *testing.T) {
 	runFamily(t, "sm2kex", 1000, 15000, "sm2-kex-init", "sm2-kex-respond")
 }
 func TestC12_SM2Legacy(t *testing.T) {
-	runFamily(t, "p256legacy", 700, 10000, "p256-legacy-sign", "p256-legacy-encrypt")
+	runFamily(t, "p256legacy", 500, 10000, "p256-legacy-sign", "p256-legacy-encrypt")
 }
